@@ -2,6 +2,7 @@
 -- runs the translators first)
 import TrimeshVerif.Props.C02
 import TrimeshVerif.Props.C03
+import TrimeshVerif.Props.C04
 import TrimeshVerif.Props.C05
 import TrimeshVerif.Props.C06
 import TrimeshVerif.Props.C07
